@@ -10,6 +10,7 @@ void runDamage(const Opts&, long, CaseLog&);
 void runLimits(const Opts&, long, CaseLog&);
 void runThreadsRound(const Opts&, long, CaseLog&);
 void runSaveSeq(const Opts&, long, CaseLog&);
+void runFpProbe(const Opts&, long, CaseLog&);
 void runPlainSave(const Opts&, long, CaseLog&);
 int modeMain(const Opts& o) {
     if (o.mode == "hist") return runCases(o, runHistCase);
@@ -22,6 +23,7 @@ int modeMain(const Opts& o) {
     if (o.mode == "limits") return runCases(o, runLimits);
     if (o.mode == "threads") return runCases(o, runThreadsRound);
     if (o.mode == "saveseq") return runCases(o, runSaveSeq);
+    if (o.mode == "fpprobe") return runCases(o, runFpProbe);
     if (o.mode == "plainsave") return runCases(o, runPlainSave);
     fprintf(stderr, "unknown mode %s\n", o.mode.c_str());
     return 2;
